@@ -210,6 +210,8 @@ func (t *Dense) Clone() interface{} {
 		if !t.old.IsZero() {
 			retVal.old = t.old.Clone()
 			t.old.CloneTo(&retVal.old)
+			retVal.transposeWith = BorrowInts(len(t.transposeWith))
+			copy(retVal.transposeWith, t.transposeWith)
 		}
 		copyDense(retVal, t)
 		retVal.lock()
